@@ -34,18 +34,20 @@ pub open spec fn or0(o: Option<usize>) -> nat { match o { Some(n) => n as nat, N
 pub open spec fn must_fail(b: &Builder, grm: &Grm, st: &StateTable) -> bool {
     b.error_on_conflicts && (or0(grm.sexpect()) != counts(st).0 || or0(grm.sexpectrr()) != counts(st).1)
 }
-// the region of the recorded finding: a conflict-free table with a non-zero %expect / %expect-rr
-pub open spec fn no_conflicts_but_expected(grm: &Grm, st: &StateTable) -> bool {
-    st.sconflicts() is None && (or0(grm.sexpect()) != 0 || or0(grm.sexpectrr()) != 0)
-}
-
 impl Builder {
     fn expect_check(&self, grm: &Grm, stable: &StateTable) -> (r: Result<(), ()>)
         ensures
-            !no_conflicts_but_expected(grm, stable) ==> (r is Err) == must_fail(self, grm, stable), // OBL: C03.build_fails_iff_conflict_counts_differ_from_expect
-            no_conflicts_but_expected(grm, stable) ==> (r is Err) == must_fail(self, grm, stable), // OBL: C03.build_fails_iff_conflict_counts_differ_from_expect.no_conflicts_at_all
+            (r is Err) == must_fail(self, grm, stable), // OBL: C03.build_fails_iff_conflict_counts_differ_from_expect
     {
         //@probe
+        // (1) a table without conflicts (this block is the repair of the finding recorded until then)
+        //@body file=lrpar/src/lib/ctbuilder.rs fn=build block=`^\s*if self\.error_on_conflicts && stable\.conflicts\(\)\.is_none\(\) \{$` through=brace
+        //@cut n=1 `return Err\(` =>>
+                        return Err(())
+        //@end
+        //@rule n=1 `grm\.expect\(\)\.unwrap_or\(0\), grm\.expectrr\(\)\.unwrap_or\(0\)` => `unwrap_or0(grm.expect()), unwrap_or0(grm.expectrr())`
+        //@endbody
+        // (2) a table with conflicts
         //@body file=lrpar/src/lib/ctbuilder.rs fn=build block=`^\s*if self\.error_on_conflicts$` through=brace
         //@cut n=1 `_ => \{` =>>
                         _ => { return Err(()); }
@@ -54,4 +56,5 @@ impl Builder {
         Ok(())
     }
 }
+pub fn unwrap_or0(o: Option<usize>) -> (r: usize) ensures r == or0(o) { match o { Some(n) => n, None => 0 } }
 //@use prelude/tail.rs
